@@ -9,3 +9,4 @@ open SwayVerif.C28
 #print axioms storage_slice_refines_bytes
 #print axioms op_footprints
 #print axioms fields_noninterference
+#print axioms C28_vec_history_partial
